@@ -18,6 +18,7 @@ import (
 	"github.com/anishathalye/porcupine"
 	"github.com/attestantio/dirk/core"
 	"github.com/attestantio/dirk/rules"
+	"github.com/attestantio/dirk/services/ruler"
 	"github.com/attestantio/dirk/util/verifhook"
 )
 
@@ -612,6 +613,35 @@ func c04Workload(run *evid.Run, cfg Cfg, histories int, report func(string, any)
 	st := newSteer(2 * time.Millisecond)
 	verifhook.Set(st.hook)
 	defer verifhook.Set(nil)
+	// Background traffic for ever-new keys through the same ruler and locker (a long-lived instance serves tens of
+	// thousands of validators): generic requests that touch no stored state, a few hundred thousand distinct keys
+	// over the run.  It shares nothing with the histories but the process.
+	churnStop := make(chan struct{})
+	var churned atomic.Int64
+	for g := 0; g < 3; g++ {
+		g := g
+		go func() {
+			cr := rand.New(rand.NewSource(cfg.Seed + 77 + int64(g)))
+			data := []*ruler.RulesData{{WalletName: "W", AccountName: "churn", Data: &rules.SignData{Domain: Dom([]byte{9, 0, 0, 0}, 1), Data: Root32(1)}}}
+			for {
+				select {
+				case <-churnStop:
+					return
+				default:
+				}
+				for k := 0; k < 512; k++ {
+					data[0].PubKey = randBytes(cr, 48)
+					env.Stack.Ruler.RunRules(context.Background(), env.Creds, ruler.ActionSign, data)
+				}
+				churned.Add(512)
+				runtime.Gosched()
+			}
+		}()
+	}
+	defer func() {
+		close(churnStop)
+		run.Count("other_keys_locked_in_the_background", int(churned.Load()))
+	}()
 	model := c04Model(l)
 	verdictVectors := map[string]bool{}
 	defer runtime.GOMAXPROCS(runtime.GOMAXPROCS(0))
